@@ -616,6 +616,50 @@ def sweep_2d(rep, pp, quick):
                         rep.violation(ob, sig, inputs=dict(base, fn="match_2d", sheared=sheared, scaling=scaling), detail=f"{n1} vs {n2}: {detail}")
 
 
+def sweep_2d_fine(rep, pp, quick):
+    """match_2d on FINE triangulations and with the tolerance values actually passed by callers.  The row / column sums of the
+    'averaged' / 'integrated' matrices are stated for every pair of tessellations and do not depend on `tol` (documented as the
+    threshold for dropping overlaps from the unscaled 0/1 matrix only).  Delaunay triangulations of 30 (thorough also 70) seeded
+    interior lattice points k/24 have 60+ (140+) cells, and pairs of them have many genuine overlaps in general position with an
+    area below 1e-4 (1e-6): these must still be counted."""
+    rng = rep.rng  # drawn after every other family, so that the seeded cases of the other sweeps are unchanged
+    plan = [(30, 3, 1e-4), (70, 2, 1e-6)] if quick else [(30, 6, 1e-4), (30, 6, 1e-6), (70, 4, 1e-6), (70, 4, 1e-4)]
+    with rep.sweep(
+        "match_2d on fine triangulations, tolerance 1e-4 / 1e-6",
+        rule="Delaunay triangulations of the unit square with 30 or 70 seeded interior nodes on the lattice k/24 and 0-2 extra boundary nodes "
+             "(60+ / 140+ cells); consecutive members of each pool matched cyclically (new = k, old = k+1) in the plane z=0 with scaling "
+             "'averaged' and 'integrated'; tol = 1e-4 (the value of the library's tests) or 1e-6 (the MortarGrid default): quick 30 nodes with "
+             "1e-4 and 70 nodes with 1e-6, thorough all four combinations; non-trivial = some exact cell-cell overlap has positive area below "
+             "tol; distinct by (pool, pair)",
+        bound="quick: pools of 3 and 2 (5 ordered pairs); thorough: 4 pools, 20 ordered pairs",
+        exhaustive=False,
+    ) as sw:
+        for pool_id, (n_int, n_tess, tol) in enumerate(plan):
+            pool = [delaunay(n_int, rng) for _ in range(n_tess)]
+            grids = [make_grid(pp, t, False) for t in pool]
+            for k in range(n_tess):
+                (p1, t1), (p2, t2) = pool[k], pool[(k + 1) % n_tess]
+                # non-trivial: a genuine overlap below the tolerance exists (exact areas; bounding boxes first)
+                small = 0
+                for ta in t1:
+                    xa, ya = [p1[v][0] for v in ta], [p1[v][1] for v in ta]
+                    for tb in t2:
+                        if small >= 1:
+                            break
+                        xb, yb = [p2[v][0] for v in tb], [p2[v][1] for v in tb]
+                        if max(xa) <= min(xb) or max(xb) <= min(xa) or max(ya) <= min(yb) or max(yb) <= min(ya):
+                            continue
+                        if 0 < exact_overlap(p1, ta, p2, tb) < Fraction(tol):
+                            small += 1
+                names = [f"delaunay {n_int} interior #{k} ({len(t1)} cells)", f"delaunay {n_int} interior #{(k + 1) % n_tess} ({len(t2)} cells)"]
+                sw.case(key=(pool_id, k), nontrivial=bool(small), sample={"first": names[0], "second": names[1], "tol": tol})
+                base = {"names": names, "tess": [_ser(p1, t1), _ser(p2, t2)], "angle": None}
+                for scaling in ("averaged", "integrated"):
+                    for ob, sig, detail in case_match_2d(pp, grids[k], grids[(k + 1) % n_tess], False, scaling, (p1, t1), (p2, t2), tol=tol):
+                        rep.violation(ob, sig, inputs=dict(base, fn="match_2d", sheared=False, scaling=scaling, tol=tol),
+                                      detail=f"{names[0]} vs {names[1]}, tol={tol}: {detail}")
+
+
 def run(rep):
     import warnings
 
@@ -634,6 +678,7 @@ def run(rep):
         warnings.simplefilter("ignore")
         sweep_1d(rep, pp, quick)
         sweep_2d(rep, pp, quick)
+        sweep_2d_fine(rep, pp, quick)
 
 
 def replay(data):
@@ -685,7 +730,8 @@ def replay(data):
                 fails = case_surface(pp, tesss, inp.get("angle"), bool(inp.get("simplex")))
             else:
                 sh = bool(inp.get("sheared"))
-                fails = case_match_2d(pp, make_grid(pp, tesss[0], sh), make_grid(pp, tesss[1], sh), sh, inp["scaling"], tesss[0], tesss[1])
+                fails = case_match_2d(pp, make_grid(pp, tesss[0], sh), make_grid(pp, tesss[1], sh), sh, inp["scaling"], tesss[0], tesss[1],
+                                      tol=float(inp.get("tol", 1e-8)))
         for f in fails:
             print("replay:", f)
         return any(f[0] == data.get("obligation") for f in fails)
